@@ -5,7 +5,7 @@
    unification of chunk-local codes). *)
 From Coq Require Import List ZArith Bool Sorting.Permutation.
 From GL Require Import Lib.Arr Model.Factorize Model.GroupByApi Spec.RowSpec
-  Proofs.FactorizeProofs Proofs.CombineProofs Proofs.MonoProofs Proofs.IndexerProofs Proofs.GenTie Gen.FactorizeGen Proofs.SelectProofs Proofs.ChunkedKeys.
+  Proofs.FactorizeProofs Proofs.CombineProofs Proofs.MonoProofs Proofs.IndexerProofs Proofs.GenTie Gen.FactorizeGen Proofs.SelectProofs Proofs.ChunkedKeys Proofs.RadixWrap Proofs.FoldKeys.
 Import ListNotations.
 Open Scope Z_scope.
 
@@ -123,12 +123,42 @@ Example C02_example :
   monotonic_factorization [Some 3; Some 4; Some 2] = (2, [0; 1], [3; 4]).
 Proof. repeat split; vm_compute; reflexivity. Qed.
 
+(* the weights in 64-bit arithmetic (np.cumprod wraps around): equal to the exact weights of the theorems above as long as the
+   cartesian product of the label counts is below 2^63 - factorize_2d keeps it below MAX_CARTESIAN_PRODUCT = 2^62 - and NOT
+   injective beyond (witness: four keys of 70000 labels; replayed on the implementation by harness/props/c02.py) *)
+Theorem C02_weights_in_int64_are_exact shape : shape <> [] -> Forall (fun s => 0 < s) shape -> prod shape < 2 ^ 63 ->
+  code_weights_i64 shape = code_weights shape.
+Proof. exact (code_weights_i64_exact shape). Qed.
+Print Assumptions C02_weights_in_int64_are_exact.
+
+Theorem C02_wrapped_weights_refuted :
+  exists shape c1 c2, in_range shape c1 /\ in_range shape c2 /\ c1 <> c2 /\
+    weight_code_sum c1 (code_weights_i64 shape) = weight_code_sum c2 (code_weights_i64 shape).
+Proof. exact wrapped_weights_refuted. Qed.
+Print Assumptions C02_wrapped_weights_refuted.
+
+(* folding the two leading keys into one (what factorize_2d does until the product fits): same codes as the direct
+   combination, labels folded, and unfolding gives the labels back - for any rows, given the first-stage labels are the
+   null-free leading pairs that occur *)
+Theorem C02_folding_keeps_the_codes rows U1 :
+  (forall r, In r rows -> is_null_row (firstn 2 r) = false -> In (firstn 2 r) U1) -> (forall u, In u U1 -> is_null_row u = false) ->
+  spec_combine (map (fold_row U1) rows) = (fst (spec_combine rows), map (fold_row U1) (snd (spec_combine rows))).
+Proof. exact (fold_leading_same_codes rows U1). Qed.
+Print Assumptions C02_folding_keeps_the_codes.
+
+Theorem C02_unfolding_gives_the_labels_back rows U1 r :
+  (forall r, In r rows -> is_null_row (firstn 2 r) = false -> In (firstn 2 r) U1) ->
+  In r rows -> is_null_row r = false -> unfold_row U1 (fold_row U1 r) = r.
+Proof. intros H. exact (unfold_fold rows U1 H r). Qed.
+Print Assumptions C02_unfolding_gives_the_labels_back.
+
 (* Tie B (pins): the functions this property's models transcribe read, statement by statement, as they did when the models
    were written against them; Gen/SourcesGen.v is regenerated from /repo on every run (translator/pins.py). *)
 From GL Require Import Gen.SourcesGen Model.Sources Proofs.PinC02.
 Theorem C02_modelled_functions_are_the_source's :
   gen_src_combine_factorizations = src_combine_factorizations /\
   gen_src_monotonic_factorization = src_monotonic_factorization /\
+  gen_src_factorize_2d = src_factorize_2d /\
   gen_src_build_group_sorted_indexer = src_build_group_sorted_indexer.
-Proof. exact (conj pin_combine_factorizations (conj pin_monotonic_factorization pin_build_group_sorted_indexer)). Qed.
+Proof. exact (conj pin_combine_factorizations (conj pin_monotonic_factorization (conj pin_factorize_2d pin_build_group_sorted_indexer))). Qed.
 Print Assumptions C02_modelled_functions_are_the_source's.
